@@ -2,7 +2,7 @@
 from checks_common import three
 
 CHECK = {
-    "runs": three("c09_epoch", [], scales=(0.2, 0.2, 1.0)),
+    "runs": three("c09_epoch", [], scales=(0.2, 0.15, 1.0)),
     "design_ref": "DESIGN.md §5 C09",
     "technique": "epoch-based-reclamation client on the real Epoch under schedule perturbation (hook points in "
                  "Epoch::lock and the low_water_mark scan); use-after-reclaim detector (ASan real delete / poison + "
